@@ -263,7 +263,54 @@ def rule_e(ctx, out):
         raise AnalysisError(f"only {n} store-selecting predicates found")
 
 
+def rule_f(ctx, out):
+    """min_length and the per-instruction upper bounds start from "the first position at which the instruction that produces a
+    final-stack element can no longer appear".  That start value must not exclude a realizing sequence: the producer of the top
+    element can be the last instruction (value b0), the producer of any deeper element can be followed by a single SWAP that buries it
+    (value >= b0 - 1, whatever the depth), a maximal store can be last (b0).  A tighter start value makes min_length exceed the length
+    of real sequences and makes the encoding infeasible.  Evaluated abstractly on final stacks of depth 1..5."""
+    from ..core.interp import ModuleInterp
+    from ..core.minieval import Unsupported, Raised
+    f = ctx.func("smt_encoding.instructions.instruction_bounds_with_dependencies.initialize_bound_positions_for_ub")
+    mi = ModuleInterp(ctx, max_steps=100000)
+    b0 = 12
+    n = 0
+    shapes = [["A"], ["A", "B"], [None, "B"], ["A", None, "C"], ["A", "B", "C", "D"], [None, None, None, "D", "E"], ["A", "A", "B"]]
+    for ids in shapes:
+        for mem in ([], ["S"], ["S", "T"]):
+            table = {}
+            try:
+                mi.call(f, b0, list(ids), list(mem), table)
+            except (Unsupported, Raised) as e:
+                raise AnalysisError(f"initialize_bound_positions_for_ub: cannot evaluate abstractly: {e}")
+            n += 1
+            bad = None
+            for d, x in enumerate(ids):
+                if x is None:
+                    continue
+                need = b0 if d == 0 else b0 - 1
+                # an instruction that also produces a shallower element is bounded by that one
+                need = max(need if i_ == d else (b0 if i_ == 0 else b0 - 1) for i_, y in enumerate(ids) if y == x)
+                got = table.get(x)
+                if not (isinstance(got, list) and len(got) == 2 and max(got) >= need):
+                    bad = (x, d, got, need)
+                    break
+            for m in mem:
+                if bad is None and not (isinstance(table.get(m), list) and max(table[m]) >= b0):
+                    bad = (m, "store", table.get(m), b0)
+            if bad is None:
+                out.ok({"final_stack_producers": ids, "maximal_stores": mem, "start_values": {k: v for k, v in table.items()}})
+            else:
+                x, d, got, need = bad
+                out.bad(f"upper-bound-start-too-tight:{'store' if d == 'store' else 'depth-' + str(min(d, 2)) + ('+' if d >= 2 else '')}",
+                        f"initialize_bound_positions_for_ub(b0={b0}, final stack producers {ids}, maximal stores {mem}) starts {x!r} "
+                        f"({'a maximal store' if d == 'store' else 'final-stack depth ' + str(d)}) at {got}; a realizing sequence can have it as late as {need}", where(f))
+    if n < 15:
+        raise AnalysisError(f"only {n} configurations evaluated")
+
+
 RULES = [
+    ("C16.f", "upper-bound start values admit every realizing sequence", 15, rule_f),
     ("C16.e", "store-selecting predicates cover MSTORE8", 8, rule_e),
     ("C16.d", "the folding discount is counted once per expression", 2, rule_d),
     ("C16.c", "the discount de-duplication level is the instruction's position", 3, rule_c),
